@@ -92,8 +92,8 @@ CHECKS = {
         "design_ref": "DESIGN.md section 8 / C08",
     },
     "C09": {
-        "technique": "Independent reading of every module's ABNF text (reference reader) + declared imports + documented flags, executed by the Lean engine model; differential against all 826 compiled rules; static well-formedness (closed, no left recursion, no prose, productive) on the reference grammar",
-        "text": "For every bundled rule the compiled object graph is compared behaviourally with what the module's own text denotes (read by a reader written independently of the library) on derived, mutated and boundary strings; the engine model that executes the reference reading is proved sound.",
+        "technique": "Lean 4 proof over tables REGENERATED from /repo on every run: (a) all 826 compiled bundled rule objects are closed, free of left recursion (verified certificate checker) so the engine terminates and is sound on every one; (b) the compiled table is rule for rule language-equal to the independent reading of every module's ABNF text (harness reader abnf_ref.py + declared imports + documented first-match choices) - verified inclusion checker, both directions, kernel-evaluated; (c) engine exactness w.r.t. the text for the 747 rules reaching no first-match flag + differential of all compiled rules against the model run on the reference reading",
+        "text": "C09.compiled_equiv_text: every compiled bundled rule matches exactly the spans the module's own text denotes (as read by a reader written independently of the library); C09.bundled_engine_exact_wrt_text: for rules reaching no first-match flag the engine's listed ends are exactly those; C09.bundled_rule_total_and_sound for all rules; flags_as_documented. Trusted: the independent reader and the pairing by class/name in harness/extract.py. Tie of the model engine to the Python engine and the flagged rules: differential on derived, mutated and boundary strings.",
         "design_ref": "DESIGN.md section 8 / C09",
     },
     "C11": {
